@@ -207,12 +207,13 @@ def place_batch(files, variants):
 
 
 def process(rep, impl, impl_rel, cases, acc, allow_cross):
-    """one batch: cases = [(entries | None, xml, offs, SPECENC line, replay | None)]"""
+    """one batch: cases = [(entries | None, xml, offs, SPECENC line, replay | None, extra)];
+    extra = dict(names=, prefix=, pair=) (pair: files of the same scene in different renderings)"""
     stats, widths, residues, pads = acc["stats"], acc["widths"], acc["residues"], acc["pads"]
     enc = core.run_cases(core.DRIVER, [c[3] for c in cases])
     rep.count(len(cases))
     rd_lines, sess_lines, sess_small, meta = [], [], [], []
-    for i, (entries, xml, offs, line, rp) in enumerate(cases):
+    for i, (entries, xml, offs, line, rp, extra) in enumerate(cases):
         o = enc[i]
         if o.startswith("CRASH") or o.startswith("driver-"):
             stats["driver_crashes"] += 1
@@ -243,11 +244,13 @@ def process(rep, impl, impl_rel, cases, acc, allow_cross):
         exp_se = expected_sess(entries, offs, xml, False) if entries else rp["expected_sess"]
         ops = sess_ops(entries, offs, False) if entries else rp["ops"]
         ops_all = sess_ops(entries, offs, True) if entries else rp["ops_all"]
+        exp_meta = specgen.expected_dump(entries, offs, extra["names"], extra.get("prefix")) if entries else rp.get("expected_meta")
         rd_lines.append("RD - " + filehex)
         sess_lines.append("SESS - %s %s" % (filehex, " ".join(ops)))
         small = int(f["len"]) <= 40 * 1024
         sess_small.append("SESS - %s %s" % (filehex, " ".join(ops_all)) if small else None)
-        meta.append(dict(line=line, xml=xml, offs=list(offs), exp_rd=exp_rd, exp_se=exp_se, ops=ops, ops_all=ops_all, filehex=filehex))
+        meta.append(dict(line=line, xml=xml, offs=list(offs), exp_rd=exp_rd, exp_se=exp_se, ops=ops, ops_all=ops_all, filehex=filehex,
+                         exp_meta=exp_meta, pair=(extra or {}).get("pair")))
         if entries:
             pos = [k for k, e in enumerate(entries) if e[0] == "X"][0]
             stats["xml_first" if pos == 0 and len(entries) > 1 else "xml_last" if pos == len(entries) - 1 else "xml_middle"] += 1
@@ -279,6 +282,7 @@ def process(rep, impl, impl_rel, cases, acc, allow_cross):
     a_rd = core.run_cases(impl, rd_lines)
     a_rd_rel = core.run_cases(impl_rel, rd_lines)
     a_se = core.run_cases(impl, sess_lines)
+    a_meta = [o.split(" ;; ")[0] for o in core.run_cases(impl, ["RNEW " + m["filehex"] for m in meta])]
     failed = set()
     for k, m in enumerate(meta):
         for got, exp, what in ((a_rd[k], m["exp_rd"], "open + point clouds"), (a_rd_rel[k], m["exp_rd"], "open + point clouds (release build)"),
@@ -292,6 +296,30 @@ def process(rep, impl, impl_rel, cases, acc, allow_cross):
                               dict(kind="spec-file", spec_line=m["line"], xml=m["xml"].hex(), offs=m["offs"], file=m["filehex"],
                                    expected_rd=m["exp_rd"], expected_sess=m["exp_se"], ops=m["ops"], ops_all=m["ops_all"]))
                 break
+        # everything the reader exposes (record NAMES, types with defaults, counts, guids, blobs, extensions) is as encoded
+        if k not in failed and m["exp_meta"] is not None and a_meta[k] != m["exp_meta"]:
+            acc["n_dir"] += 1
+            failed.add(k)
+            ge, gg = m["exp_meta"].split(), a_meta[k].split()
+            diff = next(("%s != %s" % (a, b) for a, b in zip(ge, gg) if a != b), "length %d != %d" % (len(ge), len(gg)))
+            rep.violation("c03-metadata", "the metadata the reader exposes is not what was encoded (first difference: expected %s); XML %s" %
+                          (diff[:200], m["xml"][:400].decode(errors="replace").replace("\n", " ")),
+                          dict(kind="spec-file", spec_line=m["line"], xml=m["xml"].hex(), offs=m["offs"], file=m["filehex"],
+                               expected_rd=m["exp_rd"], expected_sess=m["exp_se"], ops=m["ops"], ops_all=m["ops_all"], expected_meta=m["exp_meta"]))
+    # metamorphic: the same scene in two renderings gives the same dump (modulo section offsets and the prefix list)
+    by_pair = {}
+    for k, m in enumerate(meta):
+        if m["pair"] is not None:
+            by_pair.setdefault(m["pair"], []).append(k)
+    for ks in by_pair.values():
+        for k in ks[1:]:
+            acc["pairs"] += 1
+            if specgen.mask_dump(a_meta[k]) != specgen.mask_dump(a_meta[ks[0]]) and k not in failed and ks[0] not in failed:
+                acc["n_dir"] += 1
+                rep.violation("c03-metadata", "two renderings of the same XML tree are read as different metadata: [%s] vs [%s]" % (a_meta[ks[0]][:300], a_meta[k][:300]),
+                              dict(kind="spec-file", spec_line=meta[k]["line"], xml=meta[k]["xml"].hex(), offs=meta[k]["offs"], file=meta[k]["filehex"],
+                                   expected_rd=meta[k]["exp_rd"], expected_sess=meta[k]["exp_se"], ops=meta[k]["ops"], ops_all=meta[k]["ops_all"],
+                                   expected_meta=meta[k]["exp_meta"]))
     # ---- correspondence leg: the extracted reader model on the same files (small files: the list-based model is slow on long streams)
     idx = [k for k, l in enumerate(sess_small) if l is not None]
     m_se = core.run_cases(core.DRIVER, [sess_small[k] for k in idx])
@@ -325,24 +353,34 @@ def run(rep, tier, rng, replay=None):
     acc = dict(stats=dict(files=0, illegal=0, driver_crashes=0, unfollowed=0, packets=0, index=0, ignored=0, empty_chunks=0, empty_data_packets=0,
                           nondata_first=0, nondata_last=0, xml_first=0, xml_middle=0, xml_last=0, zero_points=0, zero_width_records=0,
                           max_packets=0, bytes=0),
-               widths=set(), residues=set(), pads=set(), cross=0, xml_variants={}, n_dir=0, n_corr=0, read=0, corr=0, sample=None)
+               widths=set(), residues=set(), pads=set(), cross=0, xml_variants={}, pairs=0, n_dir=0, n_corr=0, read=0, corr=0, sample=None)
     if replay and replay.get("kind") == "spec-file":
-        process(rep, impl, impl_rel, [(None, bytes.fromhex(replay["xml"]), replay["offs"], replay["spec_line"], replay)], acc, False)
+        process(rep, impl, impl_rel, [(None, bytes.fromhex(replay["xml"]), replay["offs"], replay["spec_line"], replay, None)], acc, False)
     else:
         files = gen_files(rng, tier)
         batch = 400
         for b in range(0, len(files), batch):
             chunk = files[b:b + batch]
             variants = [(seed >> 7) % 5 < 3 for _, _, seed in chunk]       # 3 of 5 files get a variant XML
+            # the first variant files of the batch are also encoded with the plain XML of the same scene (metamorphic leg)
+            twins = [i for i, v in enumerate(variants) if v][:24]
+            chunk = chunk + [chunk[i] for i in twins]
+            variants = variants + [False] * len(twins)
+            pair = {i: b + j for j, i in enumerate(twins)}
+            pair.update({len(chunk) - len(twins) + j: b + j for j in range(len(twins))})
             placed, tags = place_batch(chunk, variants)
-            cases = [(entries, xml, offs, spec_line(entries, xml), None) for (entries, names, seed), (xml, offs) in zip(chunk, placed)]
+            cases = []
+            for i, ((entries, names, seed), (xml, offs)) in enumerate(zip(chunk, placed)):
+                pre = next((t.split("=", 1)[1] for t in tags[i] if t.startswith("prefix=")), None)
+                cases.append((entries, xml, offs, spec_line(entries, xml), None, dict(names=names, prefix=pre, pair=pair.get(i))))
             for t in tags:
                 for x in t:
-                    acc["xml_variants"][x.split(":")[0]] = acc["xml_variants"].get(x.split(":")[0], 0) + 1
+                    key = x.split(":")[0].split("=")[0]
+                    acc["xml_variants"][key] = acc["xml_variants"].get(key, 0) + 1
             process(rep, impl, impl_rel, cases, acc, True)
     rep.cov.update(acc["stats"])
     rep.cov.update(widths_covered=len(acc["widths"]), section_start_residues_mod_1020=len(acc["residues"]), distinct_pads=len(acc["pads"]),
-                   layouts_cross_checked_by_vm_compute=acc["cross"], xml_variants=acc["xml_variants"], direct_failures=acc["n_dir"], correspondence_failures=acc["n_corr"],
+                   layouts_cross_checked_by_vm_compute=acc["cross"], xml_variants=acc["xml_variants"], rendering_pairs_compared=acc["pairs"], direct_failures=acc["n_dir"], correspondence_failures=acc["n_corr"],
                    correspondence_files=acc["corr"], traces_validated_against_impl=acc["read"] + acc["corr"])
     if acc["sample"]:
         rep.sample(acc["sample"])
@@ -350,7 +388,8 @@ def run(rep, tier, rng, replay=None):
                        "unequal chunking per record, values straddling packets, empty chunks, data packets of empty chunks only, records finishing early, index/ignored packets "
                        "at every position including first and last) x file layouts (blobs interleaved, section order, XML before/between/after the sections, extra padding, "
                        "section starts swept over residues modulo 1020), encoded by the extracted spec_encode_file and read by the real crate (debug + release): "
-                       "XML, prototypes, record counts, every value, every blob byte must be as encoded; the extracted reader model must agree with the crate on the same files; "
+                       "XML, the FULL metadata dump the reader exposes (record names, types with defaults explicit, counts, guids, blob references, extensions), every value, every blob byte must be as encoded; "
+                       "the same scene in plain and variant rendering must give the same dump; the extracted reader model must agree with the crate on the same files; "
                        "three small layouts are also evaluated by vm_compute inside Coq and compared with the extracted encoder. "
                        "The XML of 3 of 5 files is a variant: comments / processing instructions between elements, the E57 namespace bound to a prefix, default-valued "
                        "type attributes omitted, then rendered by the extracted Spec/XmlRender.render under random choices (attribute order, quote style, blanks in tags, "
